@@ -493,8 +493,9 @@ def write_evidence(prop, a, obls, meta, violations, undecided, kf_lines, wall, p
         'property_id': prop,
         'tier': a.tier,
         'seed': int(os.environ.get('VERIF_SEED', '0') or 0),
-        'level': 'proof',
+        'level': pl.get('level', 'proof'),
         'coverage': {
+            'explanation': pl.get('explanation', 'see MANIFEST.json level_claimed.text'),
             'obligations': len(proof_obls),
             'discharged': sum(o.status == 'discharged' for o in proof_obls),
             'checker_cmd': pl.get('checker_cmd', 'verus <unit>.rs --output-json --time --rlimit %s ; cargo kani --harness <h>' % VERUS_RLIMIT),
